@@ -98,7 +98,33 @@ func (b *Bundle) AuxDef(file, name string, s jx.Obj) {
 
 // Obj is a small object schema with a unique label.
 func (b *Bundle) Obj() jx.Obj {
-	return jx.Obj{"type": "object", "description": b.lbl("obj"), "properties": jx.Obj{"id": jx.Obj{"type": "integer"}}}
+	o := jx.Obj{"type": "object", "description": b.lbl("obj"), "properties": jx.Obj{"id": jx.Obj{"type": "integer"}}}
+	// labels that must survive cloning, moving and renaming untouched
+	for i := b.rng.IntN(3); i > 0; i-- {
+		n := float64(b.id())
+		switch b.rng.IntN(9) {
+		case 0:
+			o["required"] = jx.Arr{"id"}
+		case 1:
+			o["x-vendor"] = jx.Obj{"k": n, "list": jx.Arr{"a", n}}
+		case 2:
+			o["example"] = jx.Obj{"id": n}
+		case 3:
+			o["title"] = "title" + strconv.Itoa(int(n))
+		case 4:
+			o["maxProperties"] = n
+		case 5:
+			o["additionalProperties"] = false
+		case 6:
+			o["discriminator"] = "id"
+			o["required"] = jx.Arr{"id"}
+		case 7:
+			o["externalDocs"] = jx.Obj{"url": "http://docs/" + strconv.Itoa(int(n))}
+		case 8:
+			jx.AsObj(o["properties"])["tags"] = jx.Obj{"type": "array", "items": jx.Obj{"type": "string", "enum": jx.Arr{"x", "y"}}, "uniqueItems": true}
+		}
+	}
+	return o
 }
 
 func (b *Bundle) Prim() jx.Obj {
